@@ -106,6 +106,7 @@ func (d *Deque[T]) resize(n int) {
 	d.a = newA
 	d.front = 0
 	d.back = oldLen - 1
+	d.gen++
 }
 
 // PopFront removes and returns the item at the front of the deque. It panics if the deque is empty.
@@ -120,6 +121,7 @@ func (d *Deque[T]) PopFront() T {
 		d.a[d.front] = zero
 		d.front = 0
 		d.back = -1
+		d.gen++
 		return item
 	}
 	d.a[d.front] = zero
@@ -140,6 +142,7 @@ func (d *Deque[T]) PopBack() T {
 		d.a[d.back] = zero
 		d.front = 0
 		d.back = -1
+		d.gen++
 		return item
 	}
 	d.a[d.back] = zero
@@ -177,6 +180,7 @@ func (d *Deque[T]) Set(i int, t T) {
 	}
 	idx := (d.front + i) % len(d.a)
 	d.a[idx] = t
+	d.gen++
 }
 
 func positiveMod(l, d int) int {
